@@ -576,6 +576,56 @@ fn frag_check<Ctx: Cx>(
                         bump(&mut cen, "frag_k_skipped");
                         continue;
                     }
+                    // C09, node level: the per-node figures (ExtData sat_data / dissat_data) that the
+                    // descriptor-level bounds are composed from must bound what the node-level
+                    // satisfier returns for this node.
+                    if prop == Prop::C09 {
+                        let measure = |items: &Vec<Vec<u8>>| -> (usize, usize, usize) {
+                            let wsize = items.iter().map(|e| crate::rsm::compact_size(e.len()).len() + e.len()).sum::<usize>();
+                            let mut ss = vec![];
+                            for e in items {
+                                crate::sat::push_element(e, &mut ss);
+                            }
+                            (wsize, items.len(), ss.len())
+                        };
+                        for (which, st, data) in [("sat", &s.stack, ms.ext.sat_data), ("dissat", &d.stack, ms.ext.dissat_data)] {
+                            if let Witness::Stack(items) = st {
+                                bump(&mut cen, "frag_size_bounds_checked");
+                                let (wsize, count, sssize) = measure(items);
+                                let bad = match data {
+                                    // no figure to compare with: the satisfier also knows dissatisfactions of
+                                    // nodes that are not typed `d` (e.g. and_v); no parent composes them into
+                                    // a bounded figure, the descriptor-level measurement covers their use.
+                                    None => {
+                                        bump(&mut cen, "frag_size_no_static_figure");
+                                        None
+                                    }
+                                    Some(sd) => {
+                                        let mut b = vec![];
+                                        if sigver != SigVer::Base && wsize > sd.max_witness_stack_size {
+                                            b.push(format!("witness bytes {} > max_witness_stack_size {}", wsize, sd.max_witness_stack_size));
+                                        }
+                                        if count > sd.max_witness_stack_count {
+                                            b.push(format!("elements {} > max_witness_stack_count {}", count, sd.max_witness_stack_count));
+                                        }
+                                        if sigver == SigVer::Base && sssize > sd.max_script_sig_size {
+                                            b.push(format!("scriptSig bytes {} > max_script_sig_size {}", sssize, sd.max_script_sig_size));
+                                        }
+                                        if b.is_empty() { None } else { Some(b.join("; ")) }
+                                    }
+                                };
+                                if let Some(what) = bad {
+                                    rep.violation(Violation {
+                                        key: format!("C09|frag-size|{}|{}|{}|{}|{}", ctxname, which, mode, tsx, w.short()),
+                                        class: format!("node-{}-exceeds-static-figure-{}-{}", which, ctxname, t.tag()),
+                                        what,
+                                        case: json!({"ctx": ctxname, "fragment": ms.to_string(), "model": tsx, "world": w.json(), "mode": mode, "which": which,
+                                            "stack": items.iter().map(|x| hex(x)).collect::<Vec<_>>()}),
+                                    });
+                                }
+                            }
+                        }
+                    }
                     if let Witness::Stack(items) = &s.stack {
                         bump(&mut cen, "frag_sat_returned");
                         let verdict = match run(items) {
@@ -736,8 +786,8 @@ pub fn run(prop: Prop, tier: Tier) -> i32 {
             a
         });
     rep.merge_counts(&cen);
-    // H1 fragments
-    if prop != Prop::C09 {
+    // H1 fragments (C09: node-level size figures)
+    {
         let mut lim_seg = Terms { levels: u.segwit.levels[..=b.n_frag.min(u.segwit.levels.len() - 1)].to_vec(), attempted: 0, accepted: 0 };
         let mut lim_leg = Terms { levels: u.legacy.levels[..=b.n_frag.min(u.legacy.levels.len() - 1)].to_vec(), attempted: 0, accepted: 0 };
         let mut lim_tap = Terms { levels: u.tap.levels[..=b.n_frag.min(u.tap.levels.len() - 1)].to_vec(), attempted: 0, accepted: 0 };
